@@ -30,6 +30,35 @@ impl Call {
       Call::Reopen => json!("reopen"),
     }
   }
+  pub fn from_json(v: &Value) -> Option<Call> {
+    if let Some(s) = v.as_str() {
+      return match s {
+        "compact" => Some(Call::Compact),
+        "reopen" => Some(Call::Reopen),
+        _ => None,
+      };
+    }
+    let h = |k: &str| v.get(k).and_then(|x| x.as_u64()).map(|x| x as usize);
+    if let Some(x) = h("open") {
+      return Some(Call::Open(x));
+    }
+    if let Some(x) = h("drop") {
+      return Some(Call::Drop(x));
+    }
+    if let Some(x) = h("commit") {
+      return Some(Call::Commit(x));
+    }
+    if let Some(x) = h("rollback") {
+      return Some(Call::Rollback(x));
+    }
+    if let Some(id) = v.get("add").and_then(|x| x.as_str()) {
+      return Some(Call::Add(h("h")?, id.to_string(), v.get("doc")?.clone()));
+    }
+    if let Some(id) = v.get("delete").and_then(|x| x.as_str()) {
+      return Some(Call::Delete(h("h")?, id.to_string()));
+    }
+    None
+  }
   pub fn kind(&self) -> &'static str {
     match self {
       Call::Open(_) => "open",
